@@ -140,3 +140,24 @@ Proof.
   exact (C03_hw_delivered_model d g c ri n t nt Hnt Hb Hc Hri He Ha Ht H1 H2 H3 s0 id ps p Hs0 Hgr Hsp Hatt).
 Qed.
 Print Assumptions C03_hw_end_to_end.
+
+(* Part 7: the same for the oracle the generator really uses (Paths.sp_nx, proved to return shortest paths in
+   NxProofs.v): the emitted word of the model run that the harness compares with floogen's steers the flit to
+   exactly its destination. *)
+From FV Require Import NxProofs NxHw.
+Theorem C03_hw_delivered_nx :
+  forall (d : desc) (g : graph) (c : compiled) (ri : rinfo) (n : netlist) (t : cni) (nt : net),
+    net_ok d nt ->
+    build d = Ok g -> compile d g = Ok c -> gen_routing_info sp_nx c = Ok ri -> emit c ri = Ok n ->
+    d_algo d = SRC -> In t (c_nis c) ->
+    names_sepb g nt = true -> single_attachb g c = true -> links_typedb g c = true ->
+    forall s0 id ps p, In s0 (c_nis c) -> gen_route sp_nx c s0 t = Ok (id, Some ps) ->
+      sp_nx g (cn_name s0) (cn_name t) = Some p -> snd (attach nt s0) = hd "" (tl p) ->
+      let tr := send n nt (emit_ni d (ri_offset ri) s0) (hdr_of_word n (word_value ps)) in
+      t_out tr = Delivered (cn_name t) (HRoute 0) /\ length (t_rts tr) = length ps /\ (2 + length ps = length p)%nat.
+Proof.
+  intros d g c ri n t nt Hnt Hb Hc Hri He Ha Ht H1 H2 H3 s0 id ps p Hs0 Hgr Hsp Hatt.
+  destruct (hw_src_send_nx d g c ri n t nt Hnt Hb Hc Hri He Ha Ht H1 H2 H3 s0 id ps p Hs0 Hgr Hsp Hatt) as (A & B & C & _).
+  repeat split; assumption.
+Qed.
+Print Assumptions C03_hw_delivered_nx.
